@@ -152,7 +152,7 @@ def client_canon(case, obs):
 
 def model_canon(ans):
     w = ans.split()
-    if len(w) < 11 or w[4] != 'T' or w[6] != 'W' or w[8] != 'G':
+    if len(w) != 10 or w[4] != 'T' or w[6] != 'W' or w[8] != 'G':
         return {'error': ans}
     tasks = [] if w[5] == '-' else [('B' if t.startswith('B') else t) for t in w[5].split(';')]
     wire = []
@@ -402,7 +402,8 @@ def flush(ctx, res, batch):
 VALID = ['1S', '2S', '500m', '100u', '1n', '1H', '3M', '00000001S', '99999999H', '250m', '7u', '20S']
 ZERO = ['0n', '0S', '00u']
 INVALID = ['1s', '', '1', 'S', '123456789S', '1.5S', ' 1S', '5S\n', '-1S', '1 S', '1SS']
-ARRIVALS = [1.0, 3.0, 1000.25, 2.0 ** 26]
+ARRIVALS = [1.0, 3.0, 1000.25, 2.0 ** 22]
+BIG = 2.0 ** 26      # clock value whose ulp (1.5e-8 s) absorbs a 1 ns timeout
 FINS = ['ret', 'other', 'grpc', 'timeout']
 
 
@@ -428,6 +429,8 @@ def server_cases(rng, n, full):
                     return                      # asyncio would merge the two timers (clock resolution)
         if dur is None:
             dur = {'before': 0.5, 'equal': 1.0, 'after': 2.0, 'long': 5000.0}[rel]
+        if a >= 2.0 ** 23 and not ('1n' in values or any(v is None for v in vals)):
+            return      # asyncio never fires a timer when time() + 1e-9 == time(): no sleeping up there
         out.append({'side': 's', 'a': a, 'values': list(values), 'dur': dur, 'rel': rel, 'fin': fin,
                     'cancel': cancel, 'trailers_first': tf})
 
@@ -448,6 +451,8 @@ def server_cases(rng, n, full):
                     add(values, rel, 'ret', ('s', 0.5, 'other'), a)
         for fin in FINS:
             add(['1S'], 'after', fin, 'h', 3.0, tf=True)
+        add(['1n'], 'after', 'ret', 'h', BIG)           # absorbed: fl(now + 1e-9) == now -> expired
+        add(['1n', '1S'], 'after', 'ret', ('s', 0.5, 'ret'), BIG)
     for _ in range(n):
         k = rng.choice([0, 1, 1, 2, 2, 3])
         values = []
@@ -500,7 +505,7 @@ def run(ctx):
     ts = t_values()
     n_matrix = 0
     # complete op x reason x answer matrix, for a timeout of every unit range (all timeouts when thorough)
-    matrix_ts = ts if thorough else [2, grid(Fraction(1, 100)) + 2, 3 * S + S // 4, 60 * S]
+    matrix_ts = ts
     for t in matrix_ts:
         for op in OPS:
             for reason in REASONS:
@@ -515,7 +520,7 @@ def run(ctx):
     for c in special_client_cases():
         do_client(res, c, batch)
     # PRNG over the whole space (all timeouts, connect delays, start instants)
-    for _ in range(ctx.n(500, 12000)):
+    for _ in range(ctx.n(2500, 40000)):
         t = rng.choice(ts)
         delay = rng.choice([0, 0, (t // 8) * 2, 2 * t])
         t0 = rng.choice([0, S, 1024 * S + S // 2, 2 ** 16 * S])
@@ -523,7 +528,7 @@ def run(ctx):
             t0 = 0
         do_client(res, client_case(rng.choice(OPS), rng.choice(REASONS), rng.choice(ANSWERS), t,
                                    delay=delay, t0=t0), batch)
-    for c in server_cases(rng, ctx.n(400, 8000), True):
+    for c in server_cases(rng, ctx.n(1500, 25000), True):
         do_server(res, c, batch)
     res.extra['client_matrix_cells'] = n_matrix
     res.extra['timeouts_ticks'] = ts
